@@ -1,6 +1,7 @@
 package rules
 
 import (
+	"dirkcheck/internal/prog"
 	"fmt"
 	"go/types"
 	"strings"
@@ -317,25 +318,64 @@ func (c *Ctx) ListerRules(prop string) {
 		}
 		n := 0
 		bad := false
-		for _, b := range H.Blocks {
-			for _, ins := range b.Instrs {
-				st, ok := ins.(*ssa.Store)
-				if !ok {
-					continue
+		// scopes: the handler (element = accounts[i]) and the helpers that are handed accounts[i] (element = that parameter)
+		type scope struct {
+			fn    *ssa.Function
+			param *ssa.Parameter // nil in the handler itself
+		}
+		scopes := []scope{{H, nil}}
+		seenFn := map[*ssa.Function]bool{H: true}
+		for k := 0; k < len(scopes) && k < 6; k++ {
+			sc := scopes[k]
+			for _, ci := range Calls(sc.fn, func(ci ssa.CallInstruction) bool {
+				f := ci.Common().StaticCallee()
+				return f != nil && prog.InModule(f) && f.Blocks != nil && !ci.Common().IsInvoke()
+			}) {
+				f := ci.Common().StaticCallee()
+				for ai, a := range ci.Common().Args {
+					if ai >= len(f.Params) || seenFn[f] {
+						continue
+					}
+					isElem := false
+					if sc.param == nil {
+						root, i, ok := elemLoad(a)
+						isElem = ok && root == listVal && i == loop.Idx
+					} else {
+						isElem = a == ssa.Value(sc.param)
+					}
+					if isElem {
+						seenFn[f] = true
+						scopes = append(scopes, scope{f, f.Params[ai]})
+					}
 				}
-				fa, ok := st.Addr.(*ssa.FieldAddr)
-				if !ok || !(namedIs(fa.X.Type(), pkgPB, "Account") || namedIs(fa.X.Type(), pkgPB, "DistributedAccount")) {
-					continue
-				}
-				f := fieldNameOf(fa)
-				if f != "Name" && f != "PublicKey" && f != "CompositePublicKey" {
-					continue
-				}
-				n++
-				own, foreign := elementUses(st.Val, listVal, loop.Idx, 0, map[ssa.Value]bool{})
-				if foreign || !own {
-					bad = true
-					c.R.Fail(rule5, Fn(H)+":"+f, c.Pos(st), "a listed entry's "+f+" is not (only) derived from the account of the current iteration: "+an.Term(st.Val), "name and keys of entry i from accounts[i]", nil)
+			}
+		}
+		for _, sc := range scopes {
+			for _, b := range sc.fn.Blocks {
+				for _, ins := range b.Instrs {
+					st, ok := ins.(*ssa.Store)
+					if !ok {
+						continue
+					}
+					fa, ok := st.Addr.(*ssa.FieldAddr)
+					if !ok || !(namedIs(fa.X.Type(), pkgPB, "Account") || namedIs(fa.X.Type(), pkgPB, "DistributedAccount")) {
+						continue
+					}
+					f := fieldNameOf(fa)
+					if f != "Name" && f != "PublicKey" && f != "CompositePublicKey" {
+						continue
+					}
+					n++
+					var own, foreign bool
+					if sc.param == nil {
+						own, foreign = elementUses(st.Val, listVal, loop.Idx, 0, map[ssa.Value]bool{})
+					} else {
+						own, foreign = elementUsesParam(st.Val, sc.param, 0, map[ssa.Value]bool{})
+					}
+					if foreign || !own {
+						bad = true
+						c.R.Fail(rule5, Fn(sc.fn)+":"+f, c.Pos(st), "a listed entry's "+f+" is not (only) derived from the account of the current iteration: "+an.Term(st.Val), "name and keys of entry i from accounts[i]", nil)
+					}
 				}
 			}
 		}
@@ -391,6 +431,57 @@ func elementUses(v ssa.Value, list ssa.Value, idx ssa.Value, d int, seen map[ssa
 	}
 	for _, o := range ops {
 		a, b := elementUses(o, list, idx, d+1, seen)
+		own = own || a
+		foreign = foreign || b
+	}
+	return
+}
+
+// elementUsesParam is elementUses inside a helper that received the element as parameter p: own = uses p; foreign = uses
+// another parameter of account type or any element of an account list.
+func elementUsesParam(v ssa.Value, p *ssa.Parameter, d int, seen map[ssa.Value]bool) (own bool, foreign bool) {
+	if v == nil || d > 16 || seen[v] {
+		return false, false
+	}
+	seen[v] = true
+	if v == ssa.Value(p) {
+		return true, false
+	}
+	if q, ok := v.(*ssa.Parameter); ok && types.Identical(q.Type(), p.Type()) {
+		return false, true
+	}
+	if _, _, ok := elemLoad(v); ok && types.Identical(v.Type(), p.Type()) {
+		return false, true
+	}
+	var ops []ssa.Value
+	switch x := v.(type) {
+	case *ssa.Call:
+		if x.Call.IsInvoke() {
+			ops = append(ops, x.Call.Value)
+		}
+		ops = append(ops, x.Call.Args...)
+		if f := x.Call.StaticCallee(); f != nil && f.String() == "fmt.Sprintf" {
+			ops = append(ops, varargValues(x.Call.Args[1])...)
+		}
+	case *ssa.Phi:
+		ops = append(ops, x.Edges...)
+	case *ssa.TypeAssert:
+		ops = append(ops, x.X)
+	case *ssa.Extract:
+		ops = append(ops, x.Tuple)
+	case *ssa.MakeInterface:
+		ops = append(ops, x.X)
+	case *ssa.ChangeType:
+		ops = append(ops, x.X)
+	case *ssa.Convert:
+		ops = append(ops, x.X)
+	case *ssa.UnOp:
+		ops = append(ops, x.X)
+	case *ssa.Slice:
+		ops = append(ops, x.X)
+	}
+	for _, o := range ops {
+		a, b := elementUsesParam(o, p, d+1, seen)
 		own = own || a
 		foreign = foreign || b
 	}
